@@ -9,7 +9,7 @@ import ast
 from .. import astutil as A
 from ..fa import FA
 from ..loader import AnalysisError
-from .cache_model import CacheModel, self_attr
+from .cache_model import CacheModel, self_attr, branch_filter, both
 from .effects import reach_effects, storage_backend_classes, QUERY_METHODS
 from .keys import check_keying
 from . import c06
@@ -20,36 +20,78 @@ MDS = "storage_base.DataSourceMetadataSource"
 FSDS = "storage_filesystem._FilesystemDataSource"
 
 
+def _no_cache(text, positive) -> bool:
+    """literal: the backend has no memory cache"""
+    return (not positive and text in ("self._memory_cache", "bool(self._memory_cache)")) or (positive and text == "self._memory_cache is None")
+
+
+def _bind(call: ast.Call, params):
+    """callee parameter name -> argument expression (positional and keyword arguments alike; `self` skipped)"""
+    names = [p for p in params if p != "self"]
+    out = {}
+    for i, a in enumerate(call.args):
+        if isinstance(a, ast.Starred):
+            break
+        if i < len(names):
+            out[names[i]] = a
+    for k in call.keywords:
+        if k.arg:
+            out[k.arg] = k.value
+    return out
+
+
+def _xt(fa: FA, e, at=None) -> str:
+    """name-independent text of `e` (locals expanded), evaluated where `at` (default: e itself) is"""
+    if e is None:
+        return ""
+    ids = fa.nodes(at if at is not None else e)
+    try:
+        return fa.xnorm(e, ids[0]) if ids else A.norm(e)
+    except AnalysisError:
+        return A.norm(e)
+
+
 def _field_calls(fa: FA, field: str, method: str):
     """Calls self.<field>.<method>(...)"""
     return [c for c in fa.calls(method) if A.dotted(A.call_recv(c)) == "self." + field]
 
 
+def _binder_iter(fa: FA, name_node):
+    """The iterable that binds the variable `name_node` (a Name): the enclosing comprehension generator or for-loop
+    whose target is that name."""
+    if not isinstance(name_node, ast.Name):
+        return None
+    n = name_node
+    while n is not None:
+        n = fa.pm.get(n)
+        if isinstance(n, (ast.ListComp, ast.SetComp, ast.GeneratorExp, ast.DictComp)):
+            for g in n.generators:
+                if name_node.id in [x.id for x in ast.walk(g.target) if isinstance(x, ast.Name)]:
+                    return g.iter
+        if isinstance(n, (ast.For, ast.AsyncFor)) and name_node.id in [x.id for x in ast.walk(n.target) if isinstance(x, ast.Name)]:
+            return n.iter
+    return None
+
+
 def _forget_by_scan(ck, R, cm, ff, sw, sep):
+    own = [p_ for p_ in ff.fi.params if p_ != "self"]
+    slots = set()
     for c in sw:
-        deps = ff.deps(c.args[0]) if c.args else set()
-        attrs = {d.split(".")[-1] for d in deps if d.startswith("attr:")}
-        ends_sep = ("const:%r" % sep) in deps
-        # the separator must be the last operand of the concatenation
-        src = c.args[0]
-        if isinstance(src, ast.Name):
-            ds = []
-            for i in ff.nodes(c):
-                ds += ff.df.reaching(i, src.id)
-            if len(ds) == 1 and ds[0].value is not None:
-                src = ds[0].value
-        tail_ok = isinstance(src, ast.BinOp) and isinstance(src.op, ast.Add) and A.const_str(src.right) == sep
-        ok = "qualified_name" in attrs and ends_sep and tail_ok
+        # the selection prefix, however it is spelled (concatenation / format / f-string, through temporaries), is
+        # <function reference>.qualified_name followed by exactly the key separator
+        parts = A.str_parts(ff.expand(c.args[0])) if c.args else None
+        ok = bool(parts) and len(parts) == 2 and parts[0][0] == "expr" and parts[1] == ("lit", sep) and bool(own) \
+            and A.norm(parts[0][1]) == own[0] + ".qualified_name"
         ck.ob(R, ff.key(c, "prefix-terminated"), ok,
               "selection prefix is qualified_name + %r" % sep if ok else
               "selection prefix is not terminated by the key separator %r: 'f#1' would also select 'f#10/...'" % sep,
               ff.where(c))
-    # both refs and cache are filtered
-    slots = set()
-    for comp in [n for n in A.walk_body(ff.node) if isinstance(n, ast.ListComp)]:
-        for g in comp.generators:
-            for a in A.attrs_in(g.iter):
+        # which table do the tested keys come from: the iterable that binds the tested variable (comprehension or loop)
+        it = _binder_iter(ff, A.call_recv(c))
+        if it is not None:
+            for a in A.attrs_in(it):
                 slots.add(a)
+    # both refs and cache are filtered
     need = {cm.map} | ({cm.refs} if cm.refs else set())
     ck.ob(R, ff.key(None, "slots"), need <= slots, "forget_function filters %s" % sorted(need) if need <= slots else
           "forget_function does not filter %s" % sorted(need - slots), ff.where())
@@ -150,28 +192,42 @@ def check_delete_enumerates_versions(ck, R):
     two version objects and only the newest is named by the link, so resolving the link finds one of them.
     The non-recursive delete must enumerate the key's versions directory (glob / iterdir under
     _get_versions_directory(key)) and unlink what it finds; the link goes on every path."""
-    fa = FA(ck, FSDS + "._delete_all_versions_for_key")
-    loops = []
-    for lp in fa.stmts(ast.For):
-        d = fa.deps(lp.iter)
-        if "call:_get_versions_directory" in d and ("call:glob" in d or "call:iterdir" in d or "call:listdir" in d or "call:scandir" in d):
-            if any(A.call_attr(c) in ("unlink", "remove") for c in A.calls_in(lp)):
-                loops.append(lp)
-    ok = bool(loops) and any(fa.cfg.must_pass(fa.nodes(lp), fa.cfg.exit) for lp in loops)
+    fa = FA(ck, FSDS + "._delete_all_versions_for_key")  # (the host, when the helper was inlined into delete_all_versions)
+    vlits = _versions_dir_literals(ck)
+    loops = _version_scan_loops(fa, vlits)
+    # a path may skip the enumeration only where the key does not exist or the whole subtree goes (recursive delete)
+    skip = branch_filter(fa, lambda t, p: (not p and ".exists()" in t) or (p and t == "recursive"))
+    ok = bool(loops) and any(fa.cfg.exit not in fa.cfg.reach([fa.cfg.entry], removed=fa.nodes(lp), edge_ok=skip) for lp in loops)
     ck.ob(R, fa.key(None, "all-versions-enumerated"), ok,
           "every version object under the key's versions directory is unlinked" if ok else
           "_delete_all_versions_for_key does not enumerate the versions directory on every path (it deletes what the link resolves to, at most): "
           "superseded versions of a key written twice stay behind, the function directory is never pruned and a forgotten function stays listed", fa.where())
     dv = FA(ck, FSDS + ".delete_all_versions")
     links = [c for c in dv.calls("_delete_non_versioned_link")] + [c for c in dv.calls("_delete_all_versions_for_key")]
-    tests = [n.id for n in dv.cfg.nodes if n.kind == "test" and "exists" in A.norm(n.ast)]
-    okl = bool(links)
-    if okl and tests:
-        # once the key was found to exist, every path to the exit deletes the link (directly or in the per-key helper)
-        t = tests[0]
-        okl = dv.cfg.exit not in dv.cfg.reach([t], removed=dv.nodes_all(links), edge_ok=lambda s_, d_, l_: not (s_ == t and l_ == "F"), include_start=False)
+    # once the key was found to exist, every path to the exit deletes the link (directly or in the per-key helper): the only
+    # edges that may by-pass the deletion are those that say "does not exist" (guard clause or nested, either polarity)
+    okl = bool(links) and dv.cfg.exit not in dv.cfg.reach([dv.cfg.entry], removed=dv.nodes_all(links), edge_ok=branch_filter(dv, lambda t, p: not p and ".exists()" in t))
     ck.ob(R, dv.key(None, "link-removed"), okl, "the link of a deleted key is removed on every path" if okl else
           "delete_all_versions can finish without removing the key's link", dv.where())
+
+
+def _versions_dir_literals(ck):
+    """The directory-name literal(s) under which versioned objects are written (`.versions`), from the writer's path builder."""
+    pv = FA(ck, FSDS + "._get_path_versioned")
+    return {s_ for r in pv.returns() if r.value is not None for s_ in A.strings_in(pv.expand(r.value)) if s_.startswith(".") and "{" not in s_}
+
+
+def _version_scan_loops(fa: FA, vlits):
+    """Loops that enumerate a key's versions directory (glob / iterdir / listdir / scandir below a path built with the
+    versions-directory name or by _get_versions_directory) and unlink what they find."""
+    loops = []
+    for lp in fa.stmts(ast.For):
+        d = fa.deps(lp.iter)
+        under_versions = "call:_get_versions_directory" in d or any(("const:%r" % v) in d for v in vlits)
+        if under_versions and ("call:glob" in d or "call:iterdir" in d or "call:listdir" in d or "call:scandir" in d):
+            if any(A.call_attr(c) in ("unlink", "remove") for c in A.calls_in(lp)):
+                loops.append(lp)
+    return loops
 
 
 def check_forget_scope(ck, cm: CacheModel):
@@ -201,17 +257,39 @@ def check_forget_scope(ck, cm: CacheModel):
               "forget_function does not delete exactly the directory returned by _get_function_path", f1.where(c))
     f2 = FA(ck, MDS + ".forget_call")
     lk = f2.one(f2.calls("list_keys_nonversioned"), "list_keys_nonversioned call")
-    d_dir = A.kwarg(lk, "directory") or (lk.args[0] if lk.args else None)
-    d_pre = A.kwarg(lk, "file_prefix") or (lk.args[1] if len(lk.args) > 1 else None)
-    rec = A.kwarg(lk, "recursive")
-    dd = f2.deps(d_dir) if d_dir is not None else set()
-    dp = f2.deps(d_pre) if d_pre is not None else set()
-    ok = ("call:dirname" in dd and "call:_get_path" in dd and "call:basename" in dp and "call:_get_path" in dp
-          and (rec is None or A.norm(rec) == "False"))
+    lkp = ck.repo.try_func("storage_base.DataSource.list_keys_nonversioned")
+    bl = _bind(lk, lkp.params if lkp is not None else ["self", "directory", "file_prefix", "recursive", "limit", "endswith"])
+    d_dir, d_pre, rec = bl.get("directory"), bl.get("file_prefix"), bl.get("recursive")
+    pmod = PathModel(ck)
+    own = [p_ for p_ in f2.fi.params if p_ != "self"]
+    ck.need(own, "forget_call takes no call argument")
+
+    def inner(e, fn_name):
+        """the argument of os.path.<fn_name>(...) inside `e` (locals expanded), or None"""
+        if e is None:
+            return None
+        ids = f2.nodes(lk)
+        x = f2.expand(e, ids[0]) if ids else e
+        hits = [c_ for c_ in ast.walk(x) if isinstance(c_, ast.Call) and A.call_attr(c_) == fn_name and len(c_.args) == 1]
+        return hits[0].args[0] if len(hits) == 1 else None
+
+    dn, bn = inner(d_dir, "dirname"), inner(d_pre, "basename")
+    cps = []
+    if dn is not None and bn is not None:
+        # dirname(P) / basename(P) of the call path P = <function dir>/<arg hash>
+        pd_, pb_ = pmod._post(pmod._flat(dn)), pmod._post(pmod._flat(bn))
+        cps = [PathModel.call_path(pd_), PathModel.call_path(pb_)]
+        sel_ok = all(cp is not None and not cp[2] for cp in cps) and cps[0][:2] == cps[1][:2]
+    else:
+        # the same selection written directly: the function's directory and the argument hash as the prefix
+        pd_ = pmod.flatten(f2, d_dir, lk) if d_dir is not None else []
+        pb_ = pmod.flatten(f2, d_pre, lk) if d_pre is not None else []
+        sel_ok = len(pd_) == 1 and pd_[0][0] == "fnpath" and len(pb_) == 1 and pb_[0][0] == "expr"
+        cps = [(pd_[0][1], pb_[0][1], [])] if sel_ok else []
+    ok = sel_ok and (rec is None or _xt(f2, rec, lk) == "False")
     ck.ob(R, f2.key(lk), ok, "selects dirname/basename of the call's path, non-recursively" if ok else
           "forget_call does not select exactly <function dir>/<arg hash>* (directory/file_prefix/recursive changed)", f2.where(lk))
-    gp = [c for c in f2.calls("_get_path")]
-    okp = bool(gp) and all({"fn_reference", "arg_hash"} <= {d.split(".")[-1] for a in c.args for d in f2.deps(a) if d.startswith("attr:")} for c in gp)
+    okp = bool(cps) and all(cp is not None and cp[0] == own[0] + ".fn_reference" and cp[1] == own[0] + ".arg_hash" for cp in cps)
     ck.ob(R, f2.key(None, "path-args"), okp, "call path built from (fn_reference, arg_hash)" if okp else
           "forget_call's path is not built from the call's fn_reference and arg_hash", f2.where())
     dl = f2.some(f2.calls("delete_all_versions"), "delete_all_versions call")
@@ -234,16 +312,14 @@ def check_forget_scope(ck, cm: CacheModel):
         ck.ob(R, fa.key(None, "metadata-source"), okm, "metadata source %s on every path" % name if okm else
               "%s does not reach self._metadata_source.%s on every normal path" % (name, name), fa.where())
         cc = _field_calls(fa, "_memory_cache", name)
-        cache_tests = [n.id for n in fa.cfg.nodes if n.kind == "test" and "self._memory_cache" in A.norm(n.ast)]
-        def edge_ok(s, d, l, ct=cache_tests):
-            return not (s in ct and l == "F")
-        okc = bool(cc) and fa.cfg.exit not in fa.cfg.reach([fa.cfg.entry], removed=fa.nodes_all(cc), edge_ok=edge_ok)
+        # a path may skip the cache only on a branch edge that says there is no cache
+        okc = bool(cc) and fa.cfg.exit not in fa.cfg.reach([fa.cfg.entry], removed=fa.nodes_all(cc), edge_ok=branch_filter(fa, _no_cache))
         ck.ob(R, fa.key(None, "cache"), okc, "cache %s whenever a cache exists" % name if okc else
               "%s can finish without self._memory_cache.%s although a cache exists: forgotten entries stay served from memory" % (name, name), fa.where())
         # arguments forwarded unchanged
         for c in md + cc:
             params = [p for p in fa.fi.params if p != "self"]
-            okA = [A.norm(a) for a in c.args] == params
+            okA = [_xt(fa, a, c) for a in c.args] + [_xt(fa, k.value, c) for k in c.keywords] == params
             ck.ob(R, fa.key(c, "args"), okA, "scope argument forwarded unchanged" if okA else
                   "the scope argument is not forwarded unchanged", fa.where(c))
     # (d) memory backend tables
@@ -388,20 +464,16 @@ def check_cache_coherence(ck, cm):
     # memoize writes through on every non-read-only path, before the store can fail half-way
     fa = FA(ck, BACKEND_BASE + ".memoize")
     puts = _field_calls(fa, "_memory_cache", "put")
-    cache_tests = [n.id for n in fa.cfg.nodes if n.kind == "test" and "self._memory_cache" in A.norm(n.ast)]
-    ro_tests = [n.id for n in fa.cfg.nodes if n.kind == "test" and "self.read_only" in A.norm(n.ast)]
-    def edge_ok(s, d, l):
-        if s in cache_tests and l == "F":
-            return False
-        if s in ro_tests and l == "T":
-            return False
-        return True
+    # a path may finish without the put only on a branch edge that says "no cache" or "read-only" (whatever the
+    # nesting, the polarity of the test or a temporary holding the flag)
+    edge_ok = branch_filter(fa, lambda t, p: _no_cache(t, p) or (p and t == "self.read_only"))
     ok = bool(puts) and fa.cfg.exit not in fa.cfg.reach([fa.cfg.entry], removed=fa.nodes_all(puts), edge_ok=edge_ok)
     ck.ob(R, fa.key(None, "write-through"), ok, "memoize writes through to the cache on every writable path" if ok else
           "memoize can store without updating the memory cache: a stale cached value outlives the new one", fa.where())
     for c in puts:
-        hv = A.kwarg(c, "has_result") or (c.args[2] if len(c.args) > 2 else None)
-        okv = [A.norm(a) for a in c.args[:2]] == ["memento", "result"] and hv is not None and A.norm(hv) == "True"
+        b_ = _bind(c, cm.insert.params)
+        hv = b_.get("has_result")
+        okv = [_xt(fa, b_.get(x), c) for x in ("memento", "result")] == ["memento", "result"] and hv is not None and _xt(fa, hv, c) == "True"
         ck.ob(R, fa.key(c, "args"), okv, "cache receives (memento, result, has_result=True)" if okv else
               "the write-through does not pass the memoized (memento, result) with has_result=True", fa.where(c))
     # replace-on-put also covers the weak-reference slot: when the new value cannot be weakly
@@ -426,39 +498,138 @@ def check_cache_coherence(ck, cm):
     # a memento-only cache entry never answers a value read
     gm = FA(ck, BACKEND_BASE + ".get_mementos")
     for c in _field_calls(gm, "_memory_cache", "put"):
-        hv = A.kwarg(c, "has_result") or (c.args[2] if len(c.args) > 2 else None)
-        okh = hv is not None and A.norm(hv) == "False" and len(c.args) > 1 and A.is_none(c.args[1])
+        b_ = _bind(c, cm.insert.params)
+        hv = b_.get("has_result")
+        okh = hv is not None and _xt(gm, hv, c) == "False" and b_.get("result") is not None and _xt(gm, b_["result"], c) == "None"
         ck.ob(R, gm.key(c, "memento-only"), okh, "a memento found in the store is cached without a value" if okh else
               "get_mementos caches a memento with has_result set / a value: a later read_result is served None (or junk) from the cache instead of the stored value", gm.where(c))
     crr = FA(ck, "storage_base.MemoryCache.read_result")
-    vr = [r for r in crr.returns() if r.value is not None and A.norm(r.value).endswith(".value")]
-    hv_tests = [n.id for n in crr.cfg.nodes if n.kind == "test" and "has_value" in A.norm(n.ast)]
-    okv = bool(vr) and bool(hv_tests) and all(crr.cfg.must_pass(hv_tests, i) for r in vr for i in crr.nodes(r))
-    if okv:
-        # on the 'no value' edge the method raises KeyError (fall back to the store)
-        for t in hv_tests:
-            neg = A.norm(crr.cfg.node(t).ast).startswith("not ")
-            starts = [d for (d, l) in crr.cfg.succ[t] if l == ("T" if neg else "F")]
-            r_ = crr.cfg.reach(starts)
-            if crr.cfg.exit in r_ and any(set(crr.nodes(x)) & r_ for x in vr):
-                okv = False
+    vr = [r for r in crr.returns() if r.value is not None and crr.nodes(r) and crr.xnorm(r.value, crr.nodes(r)[0]).endswith(".value")]
+    # every way to a return of <entry>.value takes a branch edge that says the entry holds a value (any polarity / nesting of the
+    # test; the other edge raises KeyError or answers from somewhere else, it never reaches this return)
+    holds = branch_filter(crr, lambda t, p: p and t.endswith(".has_value"))
+    okv = bool(vr) and not (set(crr.nodes_all(vr)) & crr.cfg.reach([crr.cfg.entry], edge_ok=holds))
     ck.ob(R, crr.key(None, "value-only-if-has-value"), okv, "the cache serves a value only from an entry that holds one (else KeyError => store)" if okv else
           "MemoryCache.read_result can return entry.value of a memento-only entry (has_value False): the caller gets None instead of the stored result", crr.where())
     # read path: cache consulted first, and the value read from the store is put back
     rr = FA(ck, BACKEND_BASE + ".read_result")
     loads = rr.some([c for c in rr.calls("load") if A.dotted(A.call_recv(c)) == "self.codec"], "self.codec.load call")
     for c in _field_calls(rr, "_memory_cache", "put"):
-        hv = A.kwarg(c, "has_result") or (c.args[2] if len(c.args) > 2 else None)
-        okb = len(c.args) >= 2 and A.norm(c.args[0]) == "memento" and rr.xnorm(c.args[1], rr.nodes(c)[0]).startswith("self.codec.load(") \
-            and hv is not None and A.norm(hv) == "True" and "call:load" in rr.deps(c.args[1])
+        b_ = _bind(c, cm.insert.params)
+        hv = b_.get("has_result")
+        okb = b_.get("memento") is not None and b_.get("result") is not None and _xt(rr, b_["memento"], c) == "memento" \
+            and _xt(rr, b_["result"], c).startswith("self.codec.load(") \
+            and hv is not None and _xt(rr, hv, c) == "True" and "call:load" in rr.deps(b_["result"])
         ck.ob(R, rr.key(None, "fill-with-loaded-value"), okb, "the value loaded from the store is what fills the cache" if okb else
               "read_result fills the cache with something else than (memento, <loaded value>, has_result=True)", rr.where(c))
     for c in loads:
-        args = [A.norm(a) for a in c.args]
+        args = [_xt(rr, a, c) for a in c.args]
         ok = len(args) == 3 and args[0].endswith("invocation_metadata.result_type") and args[1] == "self._data_source" and args[2].endswith(".content_key") \
             and args[0].startswith("memento.") and args[2].startswith("memento.")
         ck.ob(R, rr.key(c, "load-args"), ok, "the result is loaded by the memento's own result type and content key" if ok else
               "read_result does not load (memento.result_type, data source, memento.content_key)", rr.where(c))
+
+
+class PathModel:
+    """Store paths of the metadata source as flat part lists, whatever builds them (format / f-string / `+`, through
+    temporaries, with the private builders `_get_path` / `_get_function_path` called or written out in place):
+
+        ('fnpath', <function reference text>)   the function's directory  m/<qualified name>
+        ('lit', text)                           literal text
+        ('expr', text)                          any other interpolated value (locals expanded)
+
+    so the call path of (fn, h) is always [('fnpath', fn), ('lit', '/'), ('expr', h)] followed by the name's suffix."""
+
+    def __init__(self, ck):
+        self.ck = ck
+        self._getpath = None
+
+    def _get_path_shape(self):
+        """parts of `_get_path(fn_reference, arg_hash)` in terms of its two parameters (None if the helper is gone)"""
+        if self._getpath is None:
+            fi = self.ck.repo.try_func(MDS + "._get_path")
+            if fi is None:
+                self._getpath = False
+            else:
+                g = FA(self.ck, fi)
+                r = g.one([r for r in g.returns() if r.value is not None], "return with a value")
+                self._getpath = (self.flatten(g, r.value, r), list(fi.params))
+        return self._getpath or None
+
+    def flatten(self, fa: FA, e, at=None):
+        ids = fa.nodes(at if at is not None else e)
+        try:
+            x = fa.expand(e, ids[0]) if ids else e
+        except AnalysisError:
+            x = e
+        return self._post(self._flat(x))
+
+    def _flat(self, x):
+        # DataSourceKey(<str>) and <key>.key are transparent
+        if isinstance(x, ast.Call) and A.call_attr(x) == "DataSourceKey" and len(x.args) == 1 and not x.keywords:
+            return self._flat(x.args[0])
+        if isinstance(x, ast.Call) and A.call_attr(x) == "str" and len(x.args) == 1:
+            return self._flat(x.args[0])
+        if isinstance(x, ast.Attribute) and x.attr == "key" and isinstance(x.value, ast.Call):
+            if A.call_attr(x.value) == "_get_function_path" and len(x.value.args) == 1:
+                return [("fnpath", A.norm(x.value.args[0]))]
+            if A.call_attr(x.value) == "DataSourceKey" and len(x.value.args) == 1:
+                return self._flat(x.value.args[0])
+        if isinstance(x, ast.Call) and A.call_attr(x) == "_get_function_path" and len(x.args) == 1:
+            return [("fnpath", A.norm(x.args[0]))]
+        if isinstance(x, ast.Call) and A.call_attr(x) == "_get_path" and len(x.args) + len(x.keywords) == 2:
+            shape = self._get_path_shape()
+            if shape is not None:
+                parts, params = shape
+                b = _bind(x, params)
+                sub = {p_: A.norm(b[p_]) for p_ in params if p_ in b}
+                out = []
+                for (k, v) in parts:
+                    if k in ("fnpath", "expr") and v in sub:
+                        out.append((k, sub[v]))
+                    else:
+                        out.append((k, v))
+                return out
+        sp = A.str_parts(x)
+        if sp is None:
+            return [("expr", A.norm(x))]
+        out = []
+        for (k, v) in sp:
+            if k == "lit":
+                out.append(("lit", v))
+            elif v is x:
+                out.append(("expr", A.norm(v)))
+            else:
+                out += self._flat(v)
+        return out
+
+    @staticmethod
+    def _post(parts):
+        # merge literals; <prefix>.key '/' <fn>.qualified_name  ==  the function path written out in place
+        merged = []
+        for (k, v) in parts:
+            if k == "lit" and merged and merged[-1][0] == "lit":
+                merged[-1] = ("lit", merged[-1][1] + v)
+            elif not (k == "lit" and v == ""):
+                merged.append((k, v))
+        out = []
+        i = 0
+        while i < len(merged):
+            if i + 2 < len(merged) and merged[i][0] == "expr" and merged[i][1].endswith("_function_path_prefix.key") and merged[i + 1][0] == "lit" \
+                    and merged[i + 1][1] == "/" and merged[i + 2][0] == "expr" and merged[i + 2][1].endswith(".qualified_name"):
+                out.append(("fnpath", merged[i + 2][1][:-len(".qualified_name")]))
+                i += 3
+            else:
+                out.append(merged[i])
+                i += 1
+        return out
+
+    @staticmethod
+    def call_path(parts):
+        """-> (function reference text, arg hash text, rest of the parts) when `parts` starts with a call path"""
+        if len(parts) >= 3 and parts[0][0] == "fnpath" and parts[1][0] == "lit" and parts[1][1].startswith("/") and parts[1][1] == "/" and parts[2][0] == "expr":
+            return parts[0][1], parts[2][1], parts[3:]
+        return None
 
 
 def _fmt_suffix(fa: FA):
@@ -486,10 +657,25 @@ def check_path_scheme(ck):
     R = "C05.R5"
     ck.rule(R, "path scheme: string constants used to build store paths equal those used to parse / filter them", 8)
     mp = FA(ck, MDS + "._get_metadata_path")
-    fm = mp.one(_fmt_suffix(mp), "'{}<suffix>'.format(...)")
-    suffix = fm[1][2:]
-    ck.ob(R, mp.key(None, "prefix-is-call-path"), any(A.call_attr(a) == "_get_path" for a in fm[0].args if isinstance(a, ast.Call)),
+    pmod = PathModel(ck)
+
+    def call_named(fa_, r):
+        """(is the name the call path of the method's own (fn_reference, arg_hash)?, parts after the call path)"""
+        parts = pmod.flatten(fa_, r.value, r)
+        cp = PathModel.call_path(parts)
+        arg = [p_ for p_ in fa_.fi.params if p_ != "self"]
+        own = cp is not None and bool(arg) and cp[0] == arg[0] + ".fn_reference" and cp[1] == arg[0] + ".arg_hash"
+        return own, (cp[2] if cp is not None else parts)
+
+    named = [call_named(mp, r) for r in mp.some([r for r in mp.returns() if r.value is not None], "return with a value")]
+    sufs = {rest[0][1] if len(rest) == 1 and rest[0][0] == "lit" else None for (_own, rest) in named}
+    if None in sufs and all(own for (own, _r) in named):
+        raise AnalysisError("%s: cannot identify the literal suffix of memento file names" % mp.qual)
+    ck.ob(R, mp.key(None, "prefix-is-call-path"), all(own for (own, _r) in named),
           "memento file name starts with the call path", mp.where())
+    sufs.discard(None)
+    ck.need(len(sufs) == 1, "%s: cannot identify the literal suffix of memento file names" % mp.qual)
+    suffix = sufs.pop()
     lm = FA(ck, MDS + ".list_mementos")
     lk = lm.one(lm.calls("list_keys_nonversioned"), "list_keys_nonversioned call")
     ew = A.kwarg(lk, "endswith")
@@ -501,8 +687,8 @@ def check_path_scheme(ck):
     ck.ob(R, lm.key(lk, "directory"), okd, "listing scans exactly the function's directory" if okd else
           "list_mementos does not scan the directory returned by _get_function_path", lm.where(lk))
     mk = FA(ck, MDS + "._get_metadata_key")
-    fk = mk.one(_fmt_suffix(mk), "'{}.metadata...'.format(...)")
-    okk = any(A.call_attr(a) == "_get_path" for a in fk[0].args if isinstance(a, ast.Call)) and not fk[1][2:].startswith(suffix)
+    knamed = [call_named(mk, r) for r in mk.some([r for r in mk.returns() if r.value is not None], "return with a value")]
+    okk = all(own and rest and rest[0][0] == "lit" and rest[0][1] and not rest[0][1].startswith(suffix) and not suffix.startswith(rest[0][1]) for (own, rest) in knamed)
     ck.ob(R, mk.key(None, "metadata-name"), okk, "custom metadata names start with the call path and cannot end like a memento" if okk else
           "custom metadata file names collide with memento file names", mk.where())
     # list_functions strips '<prefix>/'
@@ -570,9 +756,20 @@ def check_path_scheme(ck):
               "the %r suffix is stripped from every directory entry, sub-directories included: a function whose version ends in %r "
               "(its directory is <name>#<version>) is listed under a truncated version that was never memoized" % (link, link), A.loc(fn, n))
     pv = FA(ck, FSDS + "._get_path_versioned")
-    vd = FA(ck, FSDS + "._get_versions_directory")
-    lits_pv = {s for r in pv.returns() for s in A.strings_in(r.value) if s.startswith(".")}
-    lits_vd = {s for r in vd.returns() for s in A.strings_in(r.value) if s.startswith(".")}
+    lits_pv = _versions_dir_literals(ck)
+    if ck.repo.try_func(FSDS + "._get_versions_directory") is not None:
+        vd = FA(ck, FSDS + "._get_versions_directory")
+        lits_vd = {s for r in vd.returns() if r.value is not None for s in A.strings_in(vd.expand(r.value)) if s.startswith(".")}
+    else:
+        # the directory builder was inlined into the delete scan: the names are those that flow into the scan's iterable
+        dk = FA(ck, FSDS + "._delete_all_versions_for_key")
+        lits_vd = set()
+        for lp in dk.stmts(ast.For):
+            d = dk.deps(lp.iter)
+            if "call:glob" in d or "call:iterdir" in d or "call:listdir" in d or "call:scandir" in d:
+                for x in d:
+                    if x.startswith("const:'.") and "*" not in x and "{" not in x:
+                        lits_vd.add(x[7:-1])
     okv = len(lits_pv) == 1 and lits_pv == lits_vd
     ck.ob(R, pv.key(None, "versions-dir"), okv, "object paths and the delete scan agree on %s" % sorted(lits_pv) if okv else
           "version directory name differs between writer %s and deleter %s" % (sorted(lits_pv), sorted(lits_vd)), pv.where())
